@@ -132,6 +132,7 @@ class SymInt:
     __slots__ = ("e", "hashmode", "lo", "hi")
     __array_priority__ = 1000
     _registry = []
+    _index = {}
 
     def __init__(self, e, hashmode="const", lo=-8, hi=8):
         self.e = e
@@ -146,9 +147,15 @@ class SymInt:
         return 0
 
     def __repr__(self):
-        # printable and re-evaluable: `_S[k]` resolves through the registry
-        SymInt._registry.append(self)
-        return f"_S[{len(SymInt._registry) - 1}]"
+        # printable and re-evaluable: `_S[k]` resolves through the registry;
+        # the index is stable per term so that printed expressions compare equal
+        key = self.e.sexpr()
+        k = SymInt._index.get(key)
+        if k is None:
+            k = len(SymInt._registry)
+            SymInt._index[key] = k
+            SymInt._registry.append(self)
+        return f"_S[{k}]"
 
     def __index__(self):
         return core.cur().concretize(self.e, self.lo, self.hi)
